@@ -91,6 +91,18 @@ def exhaustive(rng):
                         inner = t.block(0, list(truths), has_else, outer)
                         lines = [(t.cond(outer), True)] + inner + [(".else", True)] + t.body(0, not outer) + [(".endif", True)]
                     out.append(lines)
+                # the inner chain as the LAST thing of an assembled arm, directly followed by further arms of the outer block
+                # (a nested conditional that ends by skipping must not make the outer .elif / .else live again)
+                for first in (True, False):
+                    t = Tree(rng)
+                    inner = t.block(0, list(truths), has_else, True)
+                    if first:
+                        lines = [(t.cond(True), True)] + t.body(0, True) + inner
+                    else:
+                        lines = [(t.cond(False), True)] + t.body(0, False) + [(t.elif_(True), True)] + t.body(0, True) + inner
+                    lines += [(t.elif_(True), True)] + t.body(0, False) + [(t.elif_(False), True)] + t.body(0, False)
+                    lines += [(".else", True)] + t.body(0, False) + [(".endif", True)]
+                    out.append(lines)
     return out
 
 
